@@ -1,5 +1,5 @@
 (* C08 — Resizing a region equals slicing its spliced sequence. *)
-From GTS Require Import Base Arith Loc Region Seq RegionProofs ResizeProofs.
+From GTS Require Import Base Arith Loc Region Seq RegionProofs ResizeProofs ModParse ModRT.
 Open Scope Z_scope.
 
 (* resizing commutes with strand mirroring *)
@@ -61,6 +61,22 @@ Example C08_hypotheses_met :
   mod_bounds (MHeadTail 2 (-3)) (region_len r) = (2, 9) /\
   region_resize r (MHeadTail 2 (-3)) = Ok (Regs [Regs [Seg 15 13; Seg 10 9; Seg 6 3]; Seg 20 21]).
 Proof. vm_compute. repeat split; try discriminate; try (intros H; discriminate H). Qed.
+
+(* modifiers print and re-parse to themselves: AsModifier(m.String()) = m for
+   all five forms and all offsets whose magnitude fits an int64, on the
+   faithful pars model.  Cases of the proof: every alternative of
+   parseModifier tried before the right one fails and hands the state back;
+   when the text ends right after '^' or '$' (last offset 0) pars.Int returns
+   its end-of-input error without popping, the second alternative still reads
+   the anchor, and the one frame left over is harmless (okl in ParsSpec.v). *)
+Theorem C08_modifier_print_parse : forall m, mod_ok m -> as_modifier (mod_show m) = Ok m.
+Proof. exact as_modifier_show. Qed.
+Print Assumptions C08_modifier_print_parse.
+
+Example C08_modifier_example :
+  mod_show (MHeadTail (-12) 0) = [94; 45; 49; 50; 46; 46; 36] /\
+  mod_ok (MHeadTail (-12) 0) /\ as_modifier [94; 45; 49; 50; 46; 46; 36] = Ok (MHeadTail (-12) 0).
+Proof. split; [reflexivity|]. split; [vm_compute; repeat split; discriminate|vm_compute; reflexivity]. Qed.
 
 Example C08_example :
   region_resize (Regs [Seg 3 6; Seg 9 10; Seg 13 17]) (MHeadHead 3 7)
